@@ -498,4 +498,119 @@ theorem evalAllotSources_cons_inv {env : VEnv} {asset ma : Asset} {it : PortionS
           subst h2
           exact ⟨p, ps, f, fb, b1, t, b2, ts', eqn, eqn, eqn, eqn, h1.symm⟩
 
+theorem evalStmt_send_inv {env : VEnv} {amt : SendAmt} {src : VSource} {d : Dest} {F F' : Full}
+    (h : evalStmt env (.send amt src d) F = .ok F') :
+    ∃ st, evalSend env amt src d F.st = .ok st ∧ F' = { F with st := st } := by
+  simp only [evalStmt] at h
+  cases hs : evalSend env amt src d F.st with
+  | error er => simp [hs] at h
+  | ok st =>
+    simp only [hs, Except.ok.injEq] at h
+    exact ⟨st, rfl, h.symm⟩
+
+theorem evalStmt_saveMon_inv {env : VEnv} {e acc : Expr} {F F' : Full}
+    (h : evalStmt env (.saveMon e acc) F = .ok F') :
+    ∃ ma mn a t, evalMon env e = .ok (ma, mn) ∧ evalAcct env acc = .ok a ∧ 0 ≤ mn ∧
+      F.st.bal.get a ma = some t ∧
+      F' = { F with st := { F.st with bal := F.st.bal.upd a ma (t - mn) } } := by
+  simp only [evalStmt] at h
+  cases hm : evalMon env e with
+  | error er => simp [hm] at h
+  | ok m =>
+    obtain ⟨ma, mn⟩ := m
+    simp only [hm] at h
+    cases ha : evalAcct env acc with
+    | error er => simp [ha] at h
+    | ok a =>
+      simp only [ha] at h
+      by_cases hneg : mn < 0
+      · simp [hneg] at h
+      · simp only [hneg, if_false] at h
+        cases hb : F.st.bal.get a ma with
+        | none => simp [hb] at h
+        | some t =>
+          simp only [hb, Except.ok.injEq] at h
+          exact ⟨ma, mn, a, t, eqn, eqn, by omega, eqn, h.symm⟩
+
+theorem evalStmt_saveAll_inv {env : VEnv} {ae acc : Expr} {F F' : Full}
+    (h : evalStmt env (.saveAll ae acc) F = .ok F') :
+    ∃ s a t, evalAsset env ae = .ok s ∧ evalAcct env acc = .ok a ∧ F.st.bal.get a s = some t ∧
+      F' = { F with st := { F.st with bal := if t > 0 then F.st.bal.upd a s 0 else F.st.bal } } := by
+  simp only [evalStmt] at h
+  cases hm : evalAsset env ae with
+  | error er => simp [hm] at h
+  | ok s =>
+    simp only [hm] at h
+    cases ha : evalAcct env acc with
+    | error er => simp [ha] at h
+    | ok a =>
+      simp only [ha] at h
+      cases hb : F.st.bal.get a s with
+      | none => simp [hb] at h
+      | some t =>
+        simp only [hb, Except.ok.injEq] at h
+        exact ⟨s, a, t, eqn, eqn, eqn, h.symm⟩
+
+/-- the statements that move no funds leave balances and postings alone -/
+theorem evalStmt_other_inv {env : VEnv} {s : Stmt} {F F' : Full} (h : evalStmt env s F = .ok F')
+    (h1 : ∀ amt src d, s ≠ .send amt src d) (h2 : ∀ e acc, s ≠ .saveMon e acc) (h3 : ∀ ae acc, s ≠ .saveAll ae acc) :
+    F'.st = F.st := by
+  cases s with
+  | send amt src d => exact absurd rfl (h1 amt src d)
+  | saveMon e acc => exact absurd rfl (h2 e acc)
+  | saveAll ae acc => exact absurd rfl (h3 ae acc)
+  | setTxMeta k v =>
+    simp only [evalStmt] at h
+    cases hv : evalExpr env v with
+    | error er => simp [hv] at h
+    | ok x => simp only [hv, Except.ok.injEq] at h; rw [← h]
+  | setAccountMeta acc k v =>
+    simp only [evalStmt] at h
+    cases hv : evalExpr env v with
+    | error er => simp [hv] at h
+    | ok x =>
+      simp only [hv] at h
+      cases ha : evalAcct env acc with
+      | error er => simp [ha] at h
+      | ok a => simp only [ha, Except.ok.injEq] at h; rw [← h]
+  | print e =>
+    simp only [evalStmt] at h
+    cases hv : evalExpr env e with
+    | error er => simp [hv] at h
+    | ok x => simp only [hv, Except.ok.injEq] at h; rw [← h]
+  | fail => simp [evalStmt] at h
+
+theorem evalStmts_cons_inv {env : VEnv} {s : Stmt} {ss : List Stmt} {F F' : Full}
+    (h : evalStmts env (s :: ss) F = .ok F') :
+    ∃ F1, evalStmt env s F = .ok F1 ∧ evalStmts env ss F1 = .ok F' := by
+  simp only [evalStmts] at h
+  cases hs : evalStmt env s F with
+  | error er => simp [hs] at h
+  | ok F1 =>
+    simp only [hs] at h
+    exact ⟨F1, rfl, h⟩
+
+/-- a successful run: the environment, the final interpreter state, and where the postings come from -/
+theorem run_inv {P : Script} {req : Request} {store : Store} {r : Result} (h : run P req store = .ok r) :
+    ∃ env F, prepare P req store = .ok env ∧
+      evalStmts env P.stmts { st := { bal := initBal store (needed env P.stmts), postings := [] } } = .ok F ∧
+      r.postings = F.st.postings := by
+  simp only [run] at h
+  cases hp : prepare P req store with
+  | error er => simp [hp] at h
+  | ok env =>
+    simp only [hp] at h
+    cases hc : checkBalanceVars env P.vars with
+    | error er => simp [hc] at h
+    | ok u =>
+      simp only [hc] at h
+      cases he : evalStmts env P.stmts { st := { bal := initBal store (needed env P.stmts), postings := [] } } with
+      | error er => simp [he] at h
+      | ok F =>
+        simp only [he] at h
+        split at h
+        · cases h
+        · simp only [Except.ok.injEq] at h
+          exact ⟨env, F, eqn, eqn, by rw [← h]⟩
+
 end Num
